@@ -64,4 +64,27 @@ Chunks(toks, inC) == IF toks = <<>> THEN 0
                      ELSE LET ms == Expand(Head(toks), inC)
                               inC2 == IF Head(toks) = "script" THEN TRUE ELSE IF Head(toks) = "/script" THEN FALSE ELSE inC
                           IN Cardinality({i \in 1..Len(ms) : ms[i].op \in {"out", "enc"}}) + Chunks(Tail(toks), inC2)
+
+-----------------------------------------------------------------------------
+\* --- process-wide state of walkers and filters: tokens are OWNED by the call that asked for them ---
+\* A tree walker hands out token dicts; the whitespace filter (strip_whitespace=True) rewrites the data of
+\* SpaceCharacters tokens IN PLACE (" "), the sanitizer and inject_meta_charset rewrite attribute dicts in place.
+\* That is harmless exactly as long as every token object is created for one walk and never handed out again.
+\* The machine below makes the alternative expressible: with TokenCache = TRUE the walker takes the token of a
+\* whitespace run from a process-wide cache (cell = current data of the cached dict), so an in-place rewrite
+\* by one call is what every later call in the process gets.  html5lib as it is: TokenCache = FALSE.
+\* A document is a sequence of whitespace runs (the text between its elements); a call is (document, strip).
+\* One whitespace run of the walk: returns [cache, out]
+WsToken(cache, run, strip, TokenCache) ==
+    LET cur == IF TokenCache /\ run \in DOMAIN cache THEN cache[run] ELSE run          \* data of the dict handed out
+        out == IF strip THEN " " ELSE cur                                              \* whitespace filter: token["data"] = " "
+    IN [cache |-> IF TokenCache THEN [r \in DOMAIN cache \cup {run} |-> IF r = run THEN out ELSE cache[r]] ELSE cache,
+        out |-> out]
+RECURSIVE WsWalk(_, _, _, _)
+WsWalk(cache, runs, strip, TokenCache) ==
+    IF runs = <<>> THEN [cache |-> cache, out |-> <<>>]
+    ELSE LET a == WsToken(cache, Head(runs), strip, TokenCache)
+             b == WsWalk(a.cache, Tail(runs), strip, TokenCache)
+         IN [cache |-> b.cache, out |-> <<a.out>> \o b.out]
+EmptyCache == [r \in {} |-> ""]
 =============================================================================
